@@ -22,7 +22,7 @@ NONDET = re.compile(r"random|sample|shuffle|choice|now|sleep")
 BASE_LIMITS = {"search": 20000, "time_ms": 4000, "depth": 300, "allow": ["regex"], "forbid": ["sleep"]}
 
 
-def lib_calls(rng, per_overload, want_lambda=False):
+def lib_calls(rng, per_overload, want_lambda=False, full_arity=False):
     """[(name, signature text, [argument expressions], [argument types])] over the whole exported library surface"""
     from . import c01 as L
     sigs = L.library_signatures()
@@ -46,7 +46,7 @@ def lib_calls(rng, per_overload, want_lambda=False):
                     break
                 b = {g: rng.choice(L.INST_TYPES) for g in gs}
                 nopt = sum(1 for _, r in ps if not r)
-                k = len(ps) - nopt + rng.randint(0, nopt)
+                k = len(ps) if (full_arity and _ % 2 == 0) else len(ps) - nopt + rng.randint(0, nopt)   # optional positions too
                 tys = [L.subst(t, b) for t, _ in ps[:k]]
                 args = [pool._pick(t, 0, True, False) for t in tys]
                 if k == 0 or any(a is None for a in args):
@@ -119,33 +119,33 @@ def _run_cases(progs, limits, per_req_timeout=20.0):
 
 
 def error_propagation(chk, rng, per_overload, prefix="c06"):
-    calls = lib_calls(rng, per_overload)
+    calls = lib_calls(rng, per_overload, full_arity=True)
     progs, meta = [], []
     n = 0
     for name, sig, args, tys, ret in calls:
         if name in HANDLERS:
             continue
         positions = [0] if name in SHORT else list(range(len(args)))
-        i = rng.choice(positions)
-        two = len(args) >= 2 and i + 1 < len(args) and name not in SHORT and rng.random() < 0.4
-        n += 1
-        lines, names = [], []
-        call_args = []
-        for j, a in enumerate(args):
-            if j == i:
-                lines.append(f'let x{n} = error("E{n}");')
-                call_args.append(f"x{n}")
-            elif two and j == i + 1:
-                lines.append(f'let y{n} = error("F{n}");')
-                call_args.append(f"y{n}")
-            else:
-                lines.append(f"let a{n}_{j} = {a};")
-                names.append(f"a{n}_{j}")
-                call_args.append(f"a{n}_{j}")
-        lines.append(f"let r{n} = {name}({', '.join(call_args)});")
-        names.append(f"r{n}")
-        progs.append(("\n".join(lines) + "\n", names))
-        meta.append((name, sig, i, n, len(args)))
+        for i in positions:
+            two = len(args) >= 2 and i + 1 < len(args) and name not in SHORT and rng.random() < 0.4
+            n += 1
+            lines, names = [], []
+            call_args = []
+            for j, a in enumerate(args):
+                if j == i:
+                    lines.append(f'let x{n} = error("E{n}");')
+                    call_args.append(f"x{n}")
+                elif two and j == i + 1:
+                    lines.append(f'let y{n} = error("F{n}");')
+                    call_args.append(f"y{n}")
+                else:
+                    lines.append(f"let a{n}_{j} = {a};")
+                    names.append(f"a{n}_{j}")
+                    call_args.append(f"a{n}_{j}")
+            lines.append(f"let r{n} = {name}({', '.join(call_args)});")
+            names.append(f"r{n}")
+            progs.append(("\n".join(lines) + "\n", names))
+            meta.append((name, sig, i, n, len(args)))
     res = _run_cases(progs, BASE_LIMITS)
     skipped = {}
     for (name, sig, i, n, k), (src, names), r in zip(meta, progs, res):
@@ -387,6 +387,17 @@ def pipeline_transparency(chk, rng, n, prefix="c06", only_size=False):
         parts = [rng.choice(HEAVY)] + [rng.choice(ADAPTORS[:6]).replace("KK", "6").replace("K", "1") for _ in range(k - 1)]
         rng.shuffle(parts)
         e += "".join(parts) + rng.choice([".to_array()", ".to_array().len()", ".take(9).to_array()"])
+        scases.append(f"let r = {e};\n")
+    # lazy SEQUENCE pipelines (range / map / zip / chain / slice / reverse), optionally with a poisoned element, materialised:
+    # a materialisation that "does not fit" must be the violation, never the lazy value handed on
+    for _ in range(max(6, n // 6)):
+        e = rng.choice(["range(300)", "range(150).map((x: int)->{x * 3})", "zip(range(200), range(200)).map((t: (int, int))->{t::item0 + t::item1})",
+                        "(range(100) + range(100, 220))", "range(400).skip(50).take(250)", "range(260).reverse()", "range(120).map((x: int)->{[x, x]})"])
+        if rng.random() < 0.6 and "[x, x]" not in e:
+            e += ".map((x: int)->{if(x == K, error(\"p\"), x)})".replace("K", str(rng.choice([3, 120, 200])))
+        if rng.random() < 0.4:
+            e += rng.choice([".skip(2)", ".take(90)", ".reverse()"])
+        e += rng.choice([".to_array()", ".to_array().len()", ".to_array().reverse().to_array()", ".to_array().take(3)"])
         scases.append(f"let r = {e};\n")
     lim0 = dict(BASE_LIMITS, size=big)
     empty = run_harness([{"op": "run", "src": "let r = 0;\n", "get": ["r"], "limits": lim0}])[0]
